@@ -525,6 +525,37 @@ func drawSnippet(t *rapid.T, name string, e genEnv) []Op {
 				ops = append(ops, Op{K: "login", B: b, A: e.nAcct, Src: "pw", SA: e.nAcct})
 			}
 		}
+	case "idle":
+		if !c.Has("auth") {
+			return nil
+		}
+		ops = append(ops, login)
+		if c.HasSetup("totp") {
+			ops = append(ops, Op{K: "totpvalidate", B: b, A: a, Src: "totp", SA: a})
+		}
+		if c.HasSetup("sms") {
+			ops = append(ops, Op{K: "smsvalidate", B: b, A: a, Src: "smssess"})
+		}
+		for i := rapid.IntRange(0, 2).Draw(t, "nset"); i > 0; i-- {
+			ops = append(ops, Op{K: "set", B: b, S: pick(t, "appkey", harness.AppKeys...), S2: pick(t, "appval", "dark", "3", "fr")})
+		}
+		switch pick(t, "extra", "none", "none", "oauth", "totpsetup", "smssetup") {
+		case "oauth":
+			if c.Has("oauth2") {
+				ops = append(ops, Op{K: "o2start", B: b, N: 0, S2: "/back/here"})
+			}
+		case "totpsetup":
+			if c.HasSetup("totp") {
+				ops = append(ops, Op{K: "totpsetup", B: b})
+			}
+		case "smssetup":
+			if c.HasSetup("sms") {
+				ops = append(ops, Op{K: "smssetup", B: b, S: "+15550009"})
+			}
+		}
+		for i := rapid.IntRange(1, 3).Draw(t, "nvisits"); i > 0; i-- {
+			ops = append(ops, Op{K: "advance", N: rapid.IntRange(0, 6).Draw(t, "gapidx")}, Op{K: "visit", B: b, S: pick(t, "route", "/open", "/open", "/p/none", "/p/full", "/p/2fa")})
+		}
 	case "oauthlock":
 		if !c.Has("oauth2") {
 			return nil
